@@ -369,6 +369,19 @@ impl World {
             let penalty = self.tx(pay as u64);
             let dispute_txid = self.tx(key).compute_txid();
             cryptography::encrypt(&penalty, &dispute_txid).unwrap()
+        } else if salt % 5 == 4 && want_len >= 16 + 61 + 1 {
+            // a blob that AUTHENTICATES under its dispute id but whose plaintext is a well-formed transaction followed
+            // by trailing bytes: not the serialisation of a transaction, so it must fail to decrypt like any garbage
+            use chacha20poly1305::aead::{Aead, NewAead};
+            use chacha20poly1305::{ChaCha20Poly1305, Key, Nonce};
+            let mut plain = consensus::serialize(&tx_of_id(900_000 + (salt % 1000), 0));
+            let mut r = crate::rng::Rng::new(0x7A11 ^ (key << 20) ^ (want_len << 4) ^ salt);
+            let extra = (want_len as usize).saturating_sub(16 + plain.len()).max(1);
+            plain.extend(r.bytes(extra));
+            let dispute_txid = self.tx(key).compute_txid();
+            let k = bitcoin::hashes::sha256::Hash::hash(dispute_txid.as_byte_array());
+            let cipher = ChaCha20Poly1305::new(Key::from_slice(k.as_byte_array()));
+            cipher.encrypt(&Nonce::default(), plain.as_ref()).unwrap()
         } else {
             // garbage: deterministic bytes that do not authenticate under any key
             let mut r = crate::rng::Rng::new(0xB10B ^ (key << 20) ^ (want_len << 4) ^ salt);
